@@ -860,6 +860,86 @@ def run_startwin(sc):
         shutil.rmtree(root, ignore_errors=True)
 
 
+def run_abortwake(sc):
+    """The real scheduler loop around the token: the start of a job is aborted because the token was taken by
+    another process between READY and acquire; that process gives the token back while the aborted start is
+    still unwinding (the job lock is being released).  The job must be started again and run."""
+    root = Path(tempfile.mkdtemp(prefix="xpmverif-toka-", dir=sc.get("scratch")))
+    res = dict(error=None)
+    sleeper = None
+    try:
+        from experimaestro import experiment
+        import experimaestro.connectors.local as LC
+        from vpk_c08.tasks import HoldTask
+        tokendir = root / "shared-token"
+        (root / "go").write_text("go")          # the task ends at once
+        foreign = FakeJob(7, root)
+        sleeper = subprocess.Popen(["sleep", "120"])
+        foreign.basepath.with_suffix(".pid").write_text(json.dumps({"type": "local", "pid": sleeper.pid}))
+        ffile = tokendir / "foreign.token"
+        state = dict(acquires=0, unwinds=0)
+        orig_acquire = T.CounterToken.acquire
+        orig_exit = LC.InterProcessLock.__exit__
+
+        def acquire(self, dependency):
+            state["acquires"] += 1
+            if state["acquires"] == 1:
+                # another process has just taken the whole token (its job is alive)
+                ffile.write_text("1\n%s\n" % foreign.basepath)
+            return orig_acquire(self, dependency)
+
+        def lock_exit(self, *a):
+            path = os.fsdecode(self.path)
+            if path.endswith(".lock") and not path.endswith("token.lock") \
+                    and ffile.exists() and state["acquires"] >= 1 and state["unwinds"] == 0:
+                # the aborted start is releasing the job lock (helper thread): the other process releases now
+                state["unwinds"] += 1
+                sleeper.kill()
+                sleeper.wait()
+                try:
+                    ffile.unlink()
+                except FileNotFoundError:
+                    pass
+                time.sleep(sc.get("unwind", 0.8))   # the notification is handled by the event loop meanwhile
+            return orig_exit(self, *a)
+
+        T.CounterToken.acquire = acquire
+        LC.InterProcessLock.__exit__ = lock_exit
+        try:
+            with experiment(root / "xp", "abortwake", port=-1) as xp:
+                xp.workspace.launcher.setenv("PYTHONPATH", os.environ.get("PYTHONPATH", ""))
+                token = T.CounterToken("tok", tokendir, 1)
+                task = HoldTask(dir=root, x=1)
+                task.add_dependencies(token.dependency(1))
+                task.submit()
+                limit = time.time() + sc.get("wait", 12)
+                while not (root / "ended.1").exists() and time.time() < limit:
+                    time.sleep(0.05)
+                res["job_ran"] = (root / "ended.1").exists()
+                res["acquire_calls"] = state["acquires"]
+                res["aborted_start_seen"] = state["unwinds"] == 1
+                res["available"] = int(token.available)
+                res["files"] = sorted(f.name for f in tokendir.glob("*.token"))
+                job = task.__xpm__.job
+                res["job_state"] = str(job.state)
+                res["ready_event_set"] = job._readyEvent.is_set()
+                if not res["job_ran"]:
+                    # do not wait (experiment.__exit__) for a job that will never start
+                    res["hung"] = True
+                    answer_and_exit(res)
+        finally:
+            T.CounterToken.acquire = orig_acquire
+            LC.InterProcessLock.__exit__ = orig_exit
+        return res
+    finally:
+        if sleeper is not None:
+            try:
+                sleeper.kill()
+            except Exception:
+                pass
+        shutil.rmtree(root, ignore_errors=True)
+
+
 def dep2_target(dep, root):
     dep.target = FakeJob(99, root)
     dep.loop = FakeLoop()
@@ -1018,7 +1098,23 @@ def run_one(sc):
         return run_startwin(sc)
     if kind == "probe":
         return run_probe(sc)
+    if kind == "abortwake":
+        return run_abortwake(sc)
     raise ValueError(kind)
+
+
+RESULT_FD = None
+
+
+def answer_and_exit(res):
+    """Give the answer of the scenario and end the process at once (threads / event loop may be stuck)."""
+    if RESULT_FD is not None:
+        os.write(RESULT_FD, json.dumps(res).encode())
+        os.close(RESULT_FD)
+    else:
+        print(json.dumps(res))
+        sys.stdout.flush()
+    os._exit(0)
 
 
 def run_forked(sc, timeout):
@@ -1032,6 +1128,8 @@ def run_forked(sc, timeout):
         try:
             os.setpgrp()   # job processes started by the scenario die with it on a timeout
             os.close(r)
+            global RESULT_FD
+            RESULT_FD = w
             try:
                 res = run_one(sc)
             except BaseException as e:  # noqa
